@@ -297,6 +297,70 @@ theorem C01_external_commit (As : Assets) (vs : List Val) :
     (vs.length = As.persistent.length → commitExternal As vs = { As with prev := vs.map undump }) :=
   ⟨sameP_commitExternal As vs, commitExternal_refused As vs, commitExternal_accepted As vs⟩
 
+/-! ### falsy yet informative payloads -/
+
+/-- **The committed generation has one state id per persistent group, at the group's list position, whatever the
+trained states are** — truthy, falsy (`b''`, `0`, an empty sequence: `Actor.falsyState`) or `None`: whenever a
+persistent group is trained in the segment, the committer of the compiled table yields `committed vs` with `vs` as long
+as the persistent list, and `vs[i]` is the *dumped* state of the trainer of `persistent[i]` (never a hole). -/
+theorem C01_commit_every_position (g : Segment) (As : Assets) (rank : Uid → Nat) (t : Table)
+    (hwf : g.wf rank = true) (hA : g.assetsOK (some As) = true) (hp : Preserves g (some As) t)
+    (hany : ∃ γ ∈ As.persistent, (g.trainerOf γ).isSome) :
+    ∃ vs, (run (some As) t).get .committer = some (.committed vs) ∧ vs.length = As.persistent.length ∧
+      ∀ (i : Nat) (γ : Gid), As.persistent[i]? = some γ →
+        ∃ tw, g.trainerOf γ = some tw ∧ vs[i]? = some (.dumped (g.nodeVal (some As) g.evalFuel tw.uid)) := by
+  have hA' := assetsOK_AssetsOK hA
+  obtain ⟨γ₀, hγ₀, hs₀⟩ := hany
+  have hall : ∀ γ ∈ As.persistent, (g.trainerOf γ).isSome := by
+    rcases hA'.allOrNone As rfl with h1 | h1
+    · exact h1
+    · rw [h1 γ₀ hγ₀] at hs₀; cases hs₀
+  have hc := hp.commit
+  have hcv : g.commitVal (some As) = some (As.commit (As.persistent.map fun p =>
+      match g.trainerOf p with
+      | some t => .dumped (g.nodeVal (some As) g.evalFuel t.uid)
+      | none => .error .unbound)) := by
+    simp only [commitVal]
+    rw [if_pos (List.any_eq_true.mpr ⟨γ₀, hγ₀, hs₀⟩)]
+    rfl
+  rw [hcv] at hc
+  simp only [Assets.commit, List.length_map, if_true] at hc
+  refine ⟨_, hc, by simp, ?_⟩
+  intro i γ hγ
+  obtain ⟨tw, htw⟩ := Option.isSome_iff_exists.mp (hall γ (List.mem_of_getElem? hγ))
+  refine ⟨tw, htw, ?_⟩
+  rw [List.getElem?_map, hγ]
+  simp [htw]
+
+/-- what the flow layer does with a falsy state: the dumper dumps it like any other (`dumped v`), while an actor that
+is offered it as a preset keeps the state it was built with (`Preset.reduce` skips a falsy value) -/
+theorem C01_falsy_state (A : Option Assets) (As : Assets) (a : Actor) (v : Val) (xs : List Val) (hv : v.truthy = false) :
+    exec (some As) .dumper [v] = .dumped v ∧
+    exec A (.functor a .apply [.setState]) (v :: xs) = .apply a .none xs := by
+  refine ⟨rfl, ?_⟩
+  rw [exec_apply_preset]
+  simp [Val.asState, hv]
+
+/-- non-vacuity: group 2002 of `falsyDemo` trains a *falsy* state (`Actor.falsyState`), fed by a head (1000) whose
+output is falsy (`Actor.falsyOut`), with a falsy stored previous state: the state is dumped and committed at position 0
+although it is falsy, while the applied fork holds no state and the trainer starts from no state -/
+def falsyDemo : Segment :=
+  ⟨[⟨0, 0, 1000, false, 0, 1⟩, ⟨1, 1, 2002, true, 1, 1⟩, ⟨2, 1, 2002, true, 1, 1⟩],
+   [⟨0, 0, 1, .apply 0⟩, ⟨0, 0, 2, .train⟩, ⟨0, 0, 2, .label⟩], 0, 1, []⟩
+
+def falsyAssets : Option Assets := some ⟨[1], [.stored 1000]⟩
+
+example : Actor.falsyOut 1000 = true ∧ Actor.falsyOut 2002 = false ∧ Actor.falsyState 2002 = true ∧
+    (Val.stored 1000).truthy = false ∧ (Val.stored 0).truthy = true := by decide
+example : falsyDemo.wf (fun u => if u = 0 then 0 else if u = 2 then 1 else 2) = true := by decide +kernel
+example : falsyDemo.assetsOK falsyAssets = true := by decide +kernel
+example : falsyDemo.connected = true := by decide +kernel
+example : (match compile falsyDemo falsyAssets falsyDemo.visitOrder with
+    | .ok t => ((run falsyAssets t).get .committer, (run falsyAssets t).get (.uid 1))
+    | .error _ => (none, none)) =
+    (some (.committed [.dumped (.state 2002 .none (.apply 1000 .none []) (.apply 1000 .none []))]),
+     some (.apply 2002 .none [.apply 1000 .none []])) := by rfl
+
 /-- the single stateless worker without any subscription (regression witness of fix C01-F1: the unrepaired
 `Linkage.leaves` asserted `'Not acyclic'` on its empty linkage) -/
 def loneWorker : Segment := ⟨[⟨0, 0, 0, false, 1, 1⟩], [], 0, 0, []⟩
